@@ -283,6 +283,19 @@ def run_spellpairs(acc, nt, block, nblocks):
                 if o[0] != "ok" or not close(o[1], want, nt):
                     acc.violation(["spelling-pair", "Quantity.to(container)", "wrong-factor", nt], case, str(want.coef) if want.rational else str(want.dec(30)), o[1] if o[0] != "ok" else show(o[1]))
                 both = m1 * m2
+                # the same questions with PLAIN DICTS as unit arguments (an accepted argument form of its own code path)
+                o = conv_out(lambda: ureg.convert(x, {s1: 1, s2: 1}, {u: 2}))
+                w2 = both / (r1 * r1) * defs.Mono(Fraction(x))
+                if o[0] != "ok" or not close(o[1], w2, nt):
+                    acc.violation(["spelling-pair", "convert(dict, dict)", "two-spellings-of-one-unit-not-accumulated", nt], case, str(w2.coef) if w2.rational else str(w2.dec(30)), o[1] if o[0] != "ok" else show(o[1]))
+                o = conv_out(lambda: ureg.Quantity(x, ureg.UnitsContainer({u: 2})).to({s1: 1, s2: 1}).magnitude)
+                w3 = (r1 * r1) / both * defs.Mono(Fraction(x))
+                if o[0] != "ok" or not close(o[1], w3, nt):
+                    acc.violation(["spelling-pair", "Quantity.to(dict)", "two-spellings-of-one-unit-not-accumulated", nt], case, str(w2.coef) if w2.rational else str(w2.dec(30)), o[1] if o[0] != "ok" else show(o[1]))
+                o = conv_out(lambda: ureg.get_root_units({s1: 1, s2: 1}))
+                ok = o[0] == "ok" and {k: Fraction(v) for k, v in dict(o[1][1]._units).items()} == both.units and close(o[1][0], defs.Mono(both.coef, None, both.rad, both.frac_step), nt)
+                if not ok:
+                    acc.violation(["spelling-pair", "get_root_units(dict)", "two-spellings-of-one-unit-not-accumulated", nt], case, [str(both.coef), {k: str(v) for k, v in both.units.items()}], repr(o[1])[:160])
                 o = conv_out(lambda: ureg.get_root_units(ureg.UnitsContainer({s1: 1, s2: 1})))
                 ok = o[0] == "ok" and {k: Fraction(v) for k, v in dict(o[1][1]._units).items()} == both.units and close(o[1][0], defs.Mono(both.coef, None, both.rad, both.frac_step), nt)
                 if not ok:
@@ -472,7 +485,7 @@ MANIFEST = {
     "technique": "bounded exhaustive enumeration of conversions against exact monomial arithmetic from an independent definition-file reader (R1); cold/swapped/warm query orders on one registry instance",
     "text": "Every ordered same-dimension pair of multiplicative canonical units (23k) in Fraction (exact equality, no float), float (<=64 ulp) and Decimal (1e-24) registries, each asked cold, after the "
     "swapped pair and warm; all 72 prefix spellings x all multiplicative unit spellings x {'', 's'} (130k strings) through get_root_units (factor = prefix x unit exactly once); identity, inverse and "
-    "float ndarray magnitudes through to / m_as / convert / ito — twice on the same object, plainly and with a context named — with the source required to stay bit-identical; every ordered pair of spellings of ONE unit (name, symbol, aliases, plural, prefixed by name and by symbol) as single-entry containers (identity) and together in one container (the square); path independence on every triple within each dimension class; every ordered same-dimension pair of 1-2 entry compound containers over 12 units on ONE registry instance so that sibling cache keys "
+    "float ndarray magnitudes through to / m_as / convert / ito — twice on the same object, plainly and with a context named — with the source required to stay bit-identical; every ordered pair of spellings of ONE unit (name, symbol, aliases, plural, prefixed by name and by symbol) as single-entry containers (identity) and together in one container or plain dict (the square), through convert, Quantity.to and get_root_units; path independence on every triple within each dimension class; every ordered same-dimension pair of 1-2 entry compound containers over 12 units on ONE registry instance so that sibling cache keys "
     "(exponent -1 vs -2, swapped operands) meet; 75 generated definition files x 3 numeric types. The expected value is R1's exact ratio; result types are checked for float contamination.",
     "note": "Trusted: R1 monomial algebra (cross-checked: 0 disagreements with pint over all 402 units on the unchanged tree). Units reached through a fractional power are compared with tolerance even in "
     "the Fraction registry (Python turns Fraction**0.5 into float). Compounds with more than 2 factors and units outside the 12-unit alphabet in compound position are outside the bound.",
